@@ -524,18 +524,20 @@ package erpc
 
 
 //@ func (*session).AsyncCall
-//@   property C09 C02
+//@   property C09 C02 C01
 //@   flags recover-scope
 //@   params s serviceMethod args resultArg callCmdChan setting
 //@   requires @C02 sentinelsIntact() && sessShape(s)
 //@   ensures[failed-call-completed-once] @C02 result != nil && !statOK(as(result, type(*callCmd)).stat) ==> as(result, type(*callCmd)).#completions == 1
 //@   ensures[pending-call-not-completed] @C02 result != nil && statOK(as(result, type(*callCmd)).stat) ==> as(result, type(*callCmd)).#completions == 0
 //@   ensures[call-lock-released]! @C02 sameLocks()
+//@   ensures[registered-under-its-own-sequence-number] @C01 result != nil && statOK(as(result, type(*callCmd)).stat) ==> old(s.callCmdMap).#gkeys[iface(type(int32), as(as(result, type(*callCmd)).output, type(*socket.message)).seq)] && old(s.callCmdMap).#gvals[iface(type(int32), as(as(result, type(*callCmd)).output, type(*socket.message)).seq)] == iface(type(*callCmd), as(result, type(*callCmd)))
 //@   requires s.peer != nil && s.peer.pluginContainer != nil && s.socket != nil
 //@   requires[session-lock-not-held-by-caller] !held(addr(s.lock))
 //@   ensures[pre-write-hooks-once] ghost.preWriteCallRuns == old(ghost.preWriteCallRuns) + 1
 //@   loop 1: invariant[hooks-ran-once] ghost.preWriteCallRuns == old(ghost.preWriteCallRuns) + 1
 //@   loop 1: invariant[session-lock-free] !held(addr(s.lock))
+//@   loop 1: invariant[registered] @C01 old(s.callCmdMap).#gkeys[iface(type(int32), seq)] && old(s.callCmdMap).#gvals[iface(type(int32), seq)] == iface(type(*callCmd), cmd) && as(cmd.output, type(*socket.message)).seq == seq
 //@   loop 1: invariant[only-call-lock-held] @C02 onlyLockAdded(addr(cmd.mu)) && cmd.#completions == 0 && cmd.sess == s && cmd.output != nil && cmd.inputMeta == nil
 
 //@ func (*session).Push
